@@ -14,6 +14,7 @@
 import YalafiVerif.Proofs.Inv.Main
 import YalafiVerif.Proofs.Lines
 import YalafiVerif.Proofs.PlainComment
+import YalafiVerif.Generated.Init
 namespace Yalafi
 
 /-- tokens returned by `parser_work` (the main flow) are of output classes, whatever the text -/
@@ -52,5 +53,25 @@ theorem C03_comments_dropped (T : PTables) (o : Options) (fs : FS) (thresh : Nat
 theorem C03_comment_positions_outside (src : Str) (cp : Char × Nat) (q : Nat × Nat)
     (h : cp ∈ Comment.stripComments src) (hq : q ∈ Comment.comments src) : cp.2 < q.1 ∨ q.1 + q.2 ≤ cp.2 :=
   Comment.strip_avoids_comments src cp q h hq
+
+/-- comments never leak, for the CURRENT code (tables translated from /repo, default options,
+    parser initialisation evaluated by the kernel) -/
+theorem C03_comments_dropped_current (segs : List Comment.Seg) (thresh : Nat)
+    (hok : Comment.segsOk Generated.theTables Generated.stDefault segs = true)
+    (hf : (Comment.render segs).length + 2 ≤ Generated.bigFuel) :
+    ∃ r, tex2txt Generated.theTables Generated.bigFuel (Comment.render segs) Generated.defaultOptions false thresh [] = .ok r ∧
+      r.txt = (Comment.stripComments (Comment.render segs)).map (·.1) ∧
+      r.pos = (Comment.stripComments (Comment.render segs)).map (·.2 + 1) ∧
+      r.unknowns = [] ∧ r.diags = Generated.stDefault.diags :=
+  C03_comments_dropped Generated.theTables Generated.defaultOptions [] thresh segs Generated.bigFuel
+    Generated.stDefault rfl rfl rfl rfl Generated.initParser_default hok hf
+
+/-- a concrete document with a trailing comment, a comment-only line and a comment at the end of
+    the text satisfies the side conditions on the real tables -/
+theorem C03_comments_example_current :
+    Comment.segsOk Generated.theTables Generated.stDefault
+      [.txt "Alpha ".toList, .com " note \\secret{x} $".toList, .txt "  beta gamma\n".toList, .com "only".toList,
+       .txt "\nDelta. ".toList, .comEof " the end".toList] = true := by
+  decide +kernel
 
 end Yalafi
